@@ -319,7 +319,11 @@ nextSegment:
 	for segIndex := 0; segIndex < exprLen; segIndex += amlNameLen {
 		// If expr contains a dual or multinamed path then we may encounter special
 		// prefix chars in the stream (the parser extracts the raw data). In this
-		// case skip over them.
+		// case skip over them. The multiname prefix is followed by a segment count
+		// which may look like the first character of a name and must be skipped too.
+		if segIndex+1 < exprLen && expr[segIndex] == 0x2f {
+			segIndex += 2
+		}
 		for ; segIndex < exprLen && expr[segIndex] != '_' && (expr[segIndex] < 'A' || expr[segIndex] > 'Z'); segIndex++ {
 		}
 
